@@ -19,6 +19,8 @@ func checkC05(c *Ctx) {
 	c.useRules(ruleP7, ruleP6, ruleP5, ruleL1, ruleL2)
 	c.R.Rule(ruleB1, "for every s[i], s[a:b] and encoding/binary precondition in code reachable from a Decode method: in bounds against len, for every byte string (abstract interpretation with linear facts, Fourier-Motzkin refutation).")
 	c.R.Rule("B4-bounded-allocation", "the size of every make whose operand derives from bytes read from the connection is provably at most MQTT's maximum remaining length (2^28-1).")
+	// teardown dereferences the will of a connection that announced one: the session builds it whenever the flag is set
+	c.sessionConnectAndWill()
 	r := c.Roles()
 	if !c.Need("processor", r.Processor, "receiver", r.Receiver, "sender", r.Sender, "accept", r.Accept, "teardown", r.Stop) {
 		return
@@ -32,8 +34,6 @@ func checkC05(c *Ctx) {
 			c.fanOut(sp)
 		}
 	}
-	// teardown dereferences the will of a connection that announced one: the session builds it whenever the flag is set
-	c.sessionConnectAndWill()
 	// decoders are total (B1/B2): which obligations are open?
 	an := bounds.NewAnalyzer(c.P)
 	entries := c.decodeEntries()
